@@ -62,6 +62,10 @@ def getPyVal (j : Json) : Except String PyVal := do
   else throw "unknown value kind"
 
 def handlers : List (String × Handler) := [
+  ("lazyRawNativeFile", fun j => do
+    let r := lazyRawNativeFile (← getNatList j "file") (← getNat j "pixel_data_offset") (← getBool j "implicit") (← getInt j "rows")
+      (← getInt j "cols") (← getInt j "samples") (← getInt j "bits") (← getInt j "n") (← getStr j "pi") (← getInt j "i")
+    pure (exceptToJson natsToJson r)),
   ("readerCalls", fun j => do
     -- calls: list of k (0 = single fetch, k > 0 = batch of k through get_raw_frame, k < 0 = batch of -k straight from the reader)
     let ks ← getIntList j "calls"
